@@ -61,6 +61,8 @@ def concClientObs (svc : Service) (cl : ConcClient) : Sx :=
     | none, false => "eof"
   let ref : Sx := .list [.atom "ref", .atom refStatus, .list (.atom "out" :: r.out.map ofReply),
     bytesAtom (if r.upgraded.isSome then upProcessed r else [])]
+  -- a peer that hangs up without reading observes nothing (its reference line still says what it was owed)
+  if cl.kind == "sendclose" then .list [.atom "c", .atom "t", .list [.atom "out"], bytesAtom [], .atom "f", ref] else
   .list [.atom "c", .atom "t", .list (.atom "out" :: r.out.map ofReply), bytesAtom (upEcho r), .atom "f", ref]
 
 def concLine (c : ConcCase) : Sx :=
@@ -70,6 +72,10 @@ def concLine (c : ConcCase) : Sx :=
 /-! ### timing mode: a timeline simulation that feeds Model.Listen -/
 
 def parseTimingCase : Sx → Option TimingCase
+  | .list [.atom "listen-timing", idle, stop, initial, max, conns, .list [.atom "horizon", h]] => do
+    let c ← parseTimingCase (.list [.atom "listen-timing", idle, stop, initial, max, conns])
+    let h ← asNat h
+    pure { c with horizon := some h }
   | .list [.atom "listen-timing", idle, stop, initial, max, .list (.atom "conns" :: cs)] => do
     let idle ← asNat idle
     let stopAt := asNat stop
@@ -153,6 +159,9 @@ def predictTiming (c : TimingCase) : TimingPrediction :=
 
 def timingLine (c : TimingCase) : Sx :=
   let p := predictTiming c
+  let p := match c.horizon with
+    | some h => if p.result == "running" || p.ret > h then { p with result := "running", ret := h } else p
+    | none => p
   .list [.atom "tpred", .atom p.result, .atom (toString p.ret), ofBool p.ambiguous]
 
 def listenLine (line : String) : String :=
@@ -221,6 +230,14 @@ def parseTimingObs : Sx → Option TimingObs
 def timingTolerance : Nat := 350
 
 def timingPred (c : TimingCase) (o : TimingObs) : Verdict :=
+  -- cases with an observation horizon: the model says whether `listen` is still running then (C15_timeout_not_early)
+  if let some h := c.horizon then
+    let p := predictTiming c
+    if p.result == "running" || p.ret > h + timingTolerance then
+      (if o.result == "running" then none else some "listen-returned-long-before-the-idle-timeout-had-elapsed")
+    else if o.result == "running" then some "model-disagrees:listen-still-running-at-the-horizon"
+    else P_C15_timing c o
+  else
   match P_C15_timing c o with
   | some r => some r
   | none =>
